@@ -70,6 +70,7 @@ impl Subst {
          Expr::BSetSingle(a) => Expr::BSetSingle(b(self, a)),
          Expr::CConst(a) => Expr::CConst(b(self, a)),
          Expr::ProdOf(a, x) => Expr::ProdOf(b(self, a), b(self, x)),
+         Expr::ProdFst(a) => Expr::ProdFst(b(self, a)),
          Expr::Cast(a, t) => Expr::Cast(b(self, a), *t),
          Expr::Cmp(op, a, x) => Expr::Cmp(*op, b(self, a), b(self, x)),
          Expr::And(a, x) => Expr::And(b(self, a), b(self, x)),
